@@ -31,6 +31,12 @@ def law_pairs(desc):
     if k == 'repeat':
         rhs = merge([b['block']], b.get('constraints', []), 'repeat', 'equal preamble')
         yield 'repeat=merge', desc, D(F, rhs)
+    if k == 'multi' and b.get('alignment') == 'post preamble':
+        crossed = {f for c in b['crossings'] for f in c}
+        if any('window' in f and f['name'] in b['design'] and f['name'] not in crossed for f in F):
+            # POST_PREAMBLE lets an uncrossed window factor delay all crossings; Repeat/Merge([b]) are documented to use
+            # EQUAL_PREAMBLE, so "Repeat(b, []) = b" and that rule contradict each other here: outside
+            return
     if k in ('cross', 'multi'):
         yield 'repeat-nothing=block', D(F, repeat(b, [])), desc
         yield 'merge-one=block', D(F, merge([b])), desc
@@ -144,7 +150,9 @@ def run(ctx):
     ctx.functions += ['cross_block.MultiCrossBlock', 'cross_block.CrossBlock', 'cross_block.Merge', 'cross_block.Repeat',
                       'cross_block._create', 'server.build_cnf']
     ctx.bounds = {'designs': 'fixed corpus + mode x alignment grid + 30 (thorough 300) seeded random descriptors'}
-    ctx.outside += ['pairs whose variable tables differ (reported inconclusive)', 'designs outside the generator space']
+    ctx.outside += ['pairs whose variable tables differ (reported inconclusive)', 'designs outside the generator space',
+                    'Repeat(b,[]) / Merge([b]) = b for POST_PREAMBLE blocks with an uncrossed window factor (the documentation '
+                    'of Repeat fixes EQUAL_PREAMBLE, which contradicts the identity there)']
     ctx.assumptions += ['z3/CryptoMiniSat sound', 'closure procedure of vf/sat.py']
     ctx.rule = 'one case per (law, design); non-trivial = at least one side constructs'
     items = []
